@@ -12,3 +12,14 @@ open Just.Props.C05
 #print axioms bind_default
 #print axioms bind_given_ignores_default
 #print axioms overrides_are_leading
+#print axioms resolve_consumed
+#print axioms resolveHead_words
+#print axioms parseGroup_partition
+#print axioms parseLoop_partition
+#print axioms parseLoop_arity
+#print axioms parseGroup_progress
+#print axioms resolve_no_fuel
+#print axioms parseGroup_no_fuel
+#print axioms parseLoop_fuel
+#print axioms bind_nil_words
+#print axioms positional_args_sticky
